@@ -126,7 +126,11 @@ def _case(draw):
     elif kind == "subst":
         base = draw(specs.spec_strategy(depth=depth, sat=True, derived=False))
         try:
-            w = draw(values.conforming(base))
+            if draw(st.integers(0, 3)) == 0:
+                from .. import substgen
+                base, w = draw(substgen.lookalike_union())
+            else:
+                w = draw(values.conforming(base))
             v = _project(draw, w)
             if draw(st.booleans()):
                 v = _placeholders(draw, v)
